@@ -28,7 +28,10 @@ RULE = (
     "{DOT, Mermaid, RDF} x unique_nodes on/off x add_root/add_self on/off is exported, parsed back into (graph nodes "
     "with labels, multiset of labelled edges) and compared with the node keys and parent->child edges recomputed "
     "from an independent structural walk (Mermaid: up to renaming of the opaque node numbers; RDF: exact triple "
-    "set). Non-trivial: exported branch has a clone group and depth >= 2; distinct = distinct (spec, typed, start)."
+    "set). Non-trivial: exported branch has a clone group and depth >= 2; distinct = distinct (spec, typed, start). "
+    "Part export-mutate-export exports ONE tree (tree and one start node, all combinations) before a generated "
+    "mutation history (move, remove, add, clones, re-keying, sort), after a generated subset of its steps and at its "
+    "end (non-trivial there: >= 2 rounds of exports, one of a branch as above)."
 )
 ASSUMPTIONS = [
     "labels, kinds and explicit data_ids contain no whitespace, quotes or syntax characters of the three formats",
@@ -156,9 +159,14 @@ def find_bijection(out_nodes, out_edges, exp_nodes, exp_edges, hint):
 def run(case, rec):
     typed = case["typed"]
     tree, nodes = build(case["spec"], typed=typed, name="T")
-    w = walk(tree)
     start_i = case["start"]
     start = None if start_i < 0 or not nodes else nodes[start_i % len(nodes)]
+    check_exports(tree, start, rec, typed)
+
+
+def check_exports(tree, start, rec, typed, nt=True):
+    w = walk(tree)
+    tname = tree.name
     ev = 0
 
     def desc_of(n):
@@ -175,7 +183,9 @@ def run(case, rec):
     branch = list(w.pre) if start is None else desc_of(start)
     ids_in = [n.data_id for n in branch]
     depth = max([w.depth[id(n)] for n in branch], default=0) - (0 if start is None else w.depth[id(start)])
-    rec.nt(len(set(ids_in)) < len(ids_in) and depth >= 2)
+    interesting = len(set(ids_in)) < len(ids_in) and depth >= 2
+    if nt:
+        rec.nt(interesting)
     rec.cls("typed" if typed else "plain")
     rec.cls("start=tree" if start is None else "start=node")
     root_obj = tree.system_root if start is None else start
@@ -187,7 +197,7 @@ def run(case, rec):
 
             exp_nodes = {}
             if with_root:
-                exp_nodes[str(key(root_obj))] = "T" if start is None else f"{start.data}"
+                exp_nodes[str(key(root_obj))] = tname if start is None else f"{start.data}"
             for n in branch:
                 exp_nodes.setdefault(str(key(n)), f"{n.data}")
             exp_edges = Counter()
@@ -263,7 +273,7 @@ def run(case, rec):
         exp = set()
         sysroot = URIRef(NUTREE_NS.system_root)
         if start is None:
-            exp.add((sysroot, NUTREE_NS.name, Literal("T")))
+            exp.add((sysroot, NUTREE_NS.name, Literal(tname)))
         elif with_root:
             lit = Literal(start.data_id)
             if typed:
@@ -297,6 +307,35 @@ def run(case, rec):
             rec.fail("rdf:triples:" + "+".join(sorted(kinds)), {"with_root": with_root, "missing": miss, "extra": extra, "start": None if start is None else f"{start.data}"})
     assert isinstance(g, rdflib.Graph)
     rec.evals += ev
+    return interesting
+
+
+def run_requery(case, rec):
+    """Export, restructure (move, remove, add, re-key, sort), export the same tree again."""
+    from vlib import requery
+
+    typed = bool(case.get("typed"))
+    seen = []
+
+    def check(tree, rec, eng):
+        w = walk(tree)
+        start = w.pre[case["start"] % len(w.pre)] if (w.pre and case["start"] >= 0) else None
+        seen.append(check_exports(tree, None, rec, typed, nt=False))
+        if start is not None and not rec.failed:
+            seen.append(check_exports(tree, start, rec, typed, nt=False))
+
+    q = requery.run(case, rec, check)
+    rec.nt(bool(q and q >= 2 and any(seen)))
+
+
+@st.composite
+def requery_cases(draw, tier):
+    from vlib import requery
+
+    case = draw(requery.cases(max_ops=6, max_nodes=9,
+                              kinds=["move"] * 5 + ["remove"] * 2 + ["add"] * 2 + ["add_node"] * 3 + ["sort"] * 2 + ["set_data", "rename", "remove_children", "prepend_sibling"]))
+    case["start"] = draw(st.integers(-1, 8))
+    return case
 
 
 @st.composite
@@ -311,4 +350,5 @@ def hyp_cases(draw, tier):
 
 PARTS = [
     Part("exports", run, strategy=lambda tier: hyp_cases(tier), n={"quick": 1500, "thorough": 150000}),
+    Part("export-mutate-export", run_requery, strategy=lambda tier: requery_cases(tier), n={"quick": 300, "thorough": 20000}),
 ]
